@@ -198,6 +198,7 @@ class DecSide:
         self.mir = None; self.mdict = None
         self.dict_addr = 0
         self.nblocks = 0
+        self.no_mirror = False
     def reset(self, dict_=b"", dict_addr=0):
         """new stream session; the decoder is given the dictionary (its last 64 KB), which lies at dict_addr in the arena"""
         if dict_ and len(dict_) > K64:
@@ -207,6 +208,7 @@ class DecSide:
         self.dict_addr = dict_addr if dict_ else 0
         self.drop()
         self.nblocks = 0
+        self.no_mirror = False
     def drop(self):
         for b in (self.ring, self.sd, self.dictb, self.mdict):
             if b: b.free()
@@ -277,7 +279,7 @@ class DecSide:
                 self.fail("LZ4_decompress_safe_continue (ring buffer of LZ4_decoderRingBufferSize(%d)) returned %d / wrong bytes, expected %d" % (self.ringM, r, n), det)
             self.rpos += n
         # real streaming decoder, synchronised mirror of the encoder arena (same positions, same update rule)
-        if s.use_mirror and addr:
+        if s.use_mirror and addr and not self.no_mirror:
             if self.mir is None:
                 mb = Buf(s.arena.size, fill=0x3C)
                 sd = Buf(32, fill=0)
@@ -299,6 +301,16 @@ class DecSide:
                 self.fail("LZ4_decompress_safe_continue (synchronised mirror of the encoder buffers) returned %d / wrong bytes, expected %d" % (r, n), det)
         self.H = (self.H + src)[-(K64 + 64):]
         self.nblocks += 1
+    def drop_mirror(self):
+        """LZ4_saveDict(HC) while a dictionary context stays attached: the synchronised decoder cannot follow (LZ4_setStreamDecode
+        takes ONE dictionary segment, the encoder now has dictionary ++ saved bytes): not used for the rest of the session;
+        the specification decoder, the stateless decoders and the ring-buffer decoder go on"""
+        if self.mir:
+            self.mir[0].free(); self.mir[1].free(); self.mir = None
+        if self.mdict:
+            self.mdict.free(); self.mdict = None
+        self.no_mirror = True
+        self.s.res["stats"]["mirror_decoder_dropped"] += 1
     def mirror_save(self, addr, n):
         """the decoder's counterpart of LZ4_saveDict: move its last n bytes to the same place, setStreamDecode"""
         if self.mir is None:
@@ -324,6 +336,7 @@ class Sess:
         self.log = []
         self.use_ring = use_ring; self.use_mirror = use_mirror; self.p_realdec = p_realdec
         self.failed_state = set()     # streams whose last compression failed (must be reset before reuse)
+        self.hmodel = {}              # HC sid -> the extracted lz4mid model is synchronised with the real context
         if self.orc:
             a = self.orc.ask("reset")
             if a != "ok":
@@ -505,7 +518,10 @@ class Sess:
         if self.orc:
             self.ask("save", sid, addr, n)
             self.cmp_model(sid, "LZ4_saveDict", r, None, extra={"mem": md5(self.arena.read(addr, r))})
-        d.mirror_save(addr, r)
+        if self.fstate(sid)["dctx"] != -1:
+            d.drop_mirror()        # (only before the first non-empty block: the dictionary context is still attached)
+        else:
+            d.mirror_save(addr, r)
         return r
     def f_oneshot(self, sid, kind, addr, n, cap, acc):
         """kind: fr (LZ4_compress_fast_extState_fastReset) | ext (LZ4_compress_fast_extState) | dsz (LZ4_compress_destSize_extState)"""
@@ -598,7 +614,90 @@ class Sess:
         if dbytes and self.arena.read(daddr, len(dbytes)) != dbytes:
             self.fail("prop_fail", "%s modified the dictionary buffer" % what)
 
-    # ------------------------------------------------------------ HC streams (direct oracles only)
+    # ------------------------------------------------------------ HC streams
+    # levels 1-2 (LZ4MID): every call is mirrored on the extracted Model.HcMidStream and the whole lz4mid view of the
+    # context is compared; levels >= 3 and calls that reach the dictionary-context search: direct oracles only.
+    def haddr(self, ptr):
+        if not ptr: return 0
+        return self.arena.addr(ptr) if self.arena.inside(ptr) else -1
+    def hview(self, sid):
+        """the lz4mid view of the real context, in the model's vocabulary"""
+        s = self.hstate(sid)
+        raw = self.hc[sid].bytes(131072)
+        did = -1
+        if s["dctx"]:
+            did = -2
+            for k, b in self.hc.items():
+                if b.p == s["dctx"]: did = k
+        return {"end": self.haddr(s["end"]), "ps": self.haddr(s["prefixStart"]), "ds": self.haddr(s["dictStart"]),
+                "dl": s["dictLimit"], "ll": s["lowLimit"], "ntu": s["nextToUpdate"], "lvl": s["level"], "dirty": 1 if s["dirty"] else 0,
+                "dctx": did, "h4": md5(raw[:65536]), "h8": md5(raw[65536:]), "raw": raw}
+    def h_import(self, sid):
+        """(re)synchronise the model with the real context: used after calls that are outside the model"""
+        v = self.hview(sid)
+        if v["end"] < 0 or v["ps"] < 0 or v["ds"] < 0:
+            return False
+        a = self.orc.ask("himport", str(sid), str(v["end"]), str(v["ps"]), str(v["ds"]), str(v["dl"]), str(v["ll"]), str(v["ntu"]),
+                         str(v["lvl"]), str(v["dirty"]), v["raw"].hex())
+        if "=" not in a:
+            self.fail("harness_error", "stream oracle himport: " + a[:200])
+        if v["dctx"] >= 0:
+            if not self.hmodel.get(v["dctx"]):
+                self.h_import(v["dctx"])
+            self.orc.ask("hatt", str(sid), str(v["dctx"]))
+        elif v["dctx"] == -1:
+            self.orc.ask("hatt", str(sid), "-1")
+        self.hmodel[sid] = True
+        self.res["stats"]["hc_model_import"] += 1
+        return True
+    def h_model_ready(self, sid, mid_op):
+        """is this call mirrored?  [mid_op]: the call runs the lz4mid code (level 1-2) or is pure bookkeeping on a synchronised model"""
+        if not self.orc:
+            return False
+        if self.hmodel.get(sid):
+            d = self.hview(sid)["dctx"]
+            if d >= 0 and not self.hmodel.get(d):
+                self.h_import(d); self.orc.ask("hatt", str(sid), str(d))
+            return True
+        if not mid_op:
+            return False
+        return self.h_import(sid)
+    def hcmp(self, sid, opname, ret, out, consumed=None, extra=None):
+        a = self.model_answer
+        st = self.res["stats"]
+        if a == "out":
+            self.hmodel[sid] = False
+            st["hc_model_out"] += 1
+            return
+        t = a.split()
+        if len(t) < 4 or "=" not in a:
+            self.fail("harness_error", "stream oracle answered '%s' to %s" % (a[:200], opname))
+        m = {"ret": int(t[0]), "consumed": int(t[1]), "len": int(t[2]), "md5": t[3]}
+        for x in t[4:]:
+            k, v = x.split("="); m[k] = v
+        c = self.hview(sid)
+        bad = None
+        if m["ret"] != ret:
+            bad = "return value: model %d, code %d" % (m["ret"], ret)
+        elif out is not None and ret > 0 and (m["len"] != len(out) or m["md5"] != md5(out)):
+            bad = "output bytes differ (ret=%d)" % ret
+        elif consumed is not None and ret > 0 and consumed != m["consumed"]:
+            bad = "consumed: model %d, code %d" % (m["consumed"], consumed)
+        else:
+            names = ["end", "ps", "ds", "dl", "ll", "ntu", "lvl", "dirty", "h4", "h8"]
+            diff = ["%s: code %s model %s" % (k, c[k], m[k]) for k in names if str(c[k]) != m[k]]
+            if (c["dctx"] != -1) != (m["dctx"] == "1"):
+                diff.append("dictCtx!=NULL: code %s model %s" % (c["dctx"] != -1, m["dctx"]))
+            if diff:
+                bad = "context after the call differs (end/ps/ds = end/prefixStart/dictStart, dl/ll/ntu = dictLimit/lowLimit/nextToUpdate): " + "; ".join(diff)
+        if bad is None and extra:
+            for k, v in extra.items():
+                if m.get(k) != v:
+                    bad = "%s: code %s model %s" % (k, v, m.get(k))
+        self.res["evals"] += 1
+        st["hc_model_compared"] += 1
+        if bad:
+            self.fail("corr_fail", "HcMidStream model/code disagree after %s: %s" % (opname, bad))
     def hstate(self, sid):
         raw = self.hc[sid].bytes(40, HC_OFF)
         end, ps, dstart = struct.unpack_from("<QQQ", raw, 0)
@@ -625,6 +724,8 @@ class Sess:
         self.dec[("h", sid)] = DecSide(self, "hc%d" % sid, 16)
         self.lib.initStreamHC(self.hc[sid].p, n)
         self.log.append("init h%d" % sid)
+        if self.orc:
+            self.ask("hinit", sid); self.hmodel[sid] = True; self.hcmp(sid, "LZ4_initStreamHC", 0, None)
         if level is not None:
             self.h_level(sid, level)
     def h_init(self, sid):
@@ -632,14 +733,20 @@ class Sess:
         self.log.append("init h%d" % sid)
         self.failed_state.discard(("h", sid))
         self.dec[("h", sid)].reset()
+        if self.orc:
+            self.ask("hinit", sid); self.hmodel[sid] = True; self.hcmp(sid, "LZ4_initStreamHC", 0, None)
     def h_level(self, sid, level):
+        ready = self.h_model_ready(sid, False)
         self.lib.setCompressionLevel(self.hc[sid].p, level)
         self.log.append("level h%d %d" % (sid, level))
+        if ready:
+            self.ask("hlvl", sid, level); self.hcmp(sid, "LZ4_setCompressionLevel", 0, None)
     def h_favor(self, sid, f):
         self.lib.favorDecompressionSpeed(self.hc[sid].p, f)
         self.log.append("favor h%d %d" % (sid, f))
     def h_reset_fast(self, sid, level):
         dirty = self.hstate(sid)["dirty"]
+        ready = self.h_model_ready(sid, False)
         self.lib.resetStreamHC_fast(self.hc[sid].p, level)
         self.log.append("rsf h%d level=%d (dirty was %d)" % (sid, level, dirty))
         self.res["stats"]["hc_reset_fast" + ("_dirty" if dirty else "")] += 1
@@ -648,7 +755,16 @@ class Sess:
         s = self.hstate(sid)
         if s["dirty"] or s["dctx"]:
             self.fail("prop_fail", "LZ4_resetStreamHC_fast left dirty=%d dictCtx=%x" % (s["dirty"], s["dctx"]))
+        if ready:
+            self.ask("hrsf", sid, level); self.hcmp(sid, "LZ4_resetStreamHC_fast", 0, None)
+        elif self.orc and dirty:
+            # a dirty context is fully re-initialised: the model is synchronised again
+            self.ask("hinit", sid); self.ask("hlvl", sid, level); self.hmodel[sid] = True; self.hcmp(sid, "LZ4_resetStreamHC_fast (dirty)", 0, None)
     def h_load(self, sid, addr, n):
+        mid = self.hstate(sid)["level"] <= 2
+        if self.orc and mid and not self.hmodel.get(sid):
+            self.orc.ask("hlvl", str(sid), str(self.hstate(sid)["level"])); self.hmodel[sid] = True    # loadDictHC only reads the level
+        ready = self.orc is not None and self.hmodel.get(sid, False)
         r = self.lib.loadDictHC(self.hc[sid].p, self.arena.ptr(addr), n)
         self.log.append("ld h%d %d+%d -> %d" % (sid, addr - BASE, n, r))
         self.res["stats"]["loadDictHC"] += 1
@@ -656,9 +772,18 @@ class Sess:
         if r != min(n, K64):
             self.fail("prop_fail", "LZ4_loadDictHC(%d) returned %d" % (n, r))
         self.dec[("h", sid)].reset(self.arena.read(addr, n), addr)
+        if ready:
+            self.ask("hld", sid, addr, n); self.hcmp(sid, "LZ4_loadDictHC", r, None)
+        elif self.orc:
+            self.hmodel[sid] = False
         return r
     def h_attach(self, sid, did):
+        ready = self.h_model_ready(sid, False)
         self.lib.attach_HC_dictionary(self.hc[sid].p, self.hc[did].p if did is not None else None)
+        if ready:
+            if did is not None and not self.hmodel.get(did):
+                self.h_import(did)
+            self.ask("hatt", sid, did if did is not None else -1); self.hcmp(sid, "LZ4_attach_HC_dictionary", 0, None)
         self.log.append("att h%d <- %s" % (sid, "h%d" % did if did is not None else "NULL"))
         self.res["stats"]["attach_HC"] += 1
         if did is not None:
@@ -687,15 +812,22 @@ class Sess:
             self.fail("prop_fail", "%s modified the attached dictionary stream (LZ4_streamHC_t differs byte-wise after use)" % what)
         if dbytes and self.arena.read(a, len(dbytes)) != dbytes:
             self.fail("prop_fail", "%s modified the dictionary buffer" % what)
-    def h_continue(self, sid, addr, n, cap):
+    def h_continue(self, sid, addr, n, cap, destsize=False):
         dst = Buf(max(cap, 0), fill=0xC3)
         src = self.arena.read(addr, n)
         snap = self.h_snap(sid)
         lvl = self.hstate(sid)["level"]
-        r = self.lib.compress_HC_continue(self.hc[sid].p, self.arena.ptr(addr), dst.p, n, cap)
+        ready = self.h_model_ready(sid, lvl <= 2)
+        consumed = n
+        if destsize:
+            sz = c_int(n)
+            r = self.lib.compress_HC_continue_destSize(self.hc[sid].p, self.arena.ptr(addr), dst.p, byref(sz), cap)
+            consumed = sz.value
+        else:
+            r = self.lib.compress_HC_continue(self.hc[sid].p, self.arena.ptr(addr), dst.p, n, cap)
         out = dst.bytes(r) if 0 < r <= cap else b""
         dst.free()
-        self.log.append("cont h%d %d+%d cap=%d lvl=%d -> %d" % (sid, addr - BASE, n, cap, lvl, r))
+        self.log.append("%s h%d %d+%d cap=%d lvl=%d -> %d (%d)" % ("cds" if destsize else "cont", sid, addr - BASE, n, cap, lvl, r, consumed))
         st = self.res["stats"]
         st["hc_continue"] += 1; st["hc_level_" + lvl_class(lvl)] += 1
         st["hc_ret_" + ("pos" if r > 0 else "zero")] += 1
@@ -706,19 +838,35 @@ class Sess:
             self.fail("prop_fail", "compression modified its source")
         self.h_check_snap(snap, "LZ4_compress_HC_continue")
         s = self.hstate(sid)
-        if r > 0:
-            self.dec[("h", sid)].maxblock = max(self.dec[("h", sid)].maxblock, n)
-            self.dec[("h", sid)].block(src, out, addr)
-        else:
-            self.failed_state.add(("h", sid))
-            if not s["dirty"]:
-                self.fail("prop_fail", "LZ4_compress_HC_continue returned %d but did not set the dirty flag" % r)
-            if cap >= bound(n):
-                self.fail("prop_fail", "LZ4_compress_HC_continue failed with capacity %d >= LZ4_compressBound(%d)" % (cap, n))
+        try:
+            if destsize:
+                st["hc_continue_destSize" + ("_partial" if 0 < r and consumed < n else "")] += 1
+                if r > 0 and not (0 <= consumed <= n):
+                    self.fail("prop_fail", "LZ4_compress_HC_continue_destSize consumed %d of %d" % (consumed, n))
+            if r > 0:
+                self.dec[("h", sid)].maxblock = max(self.dec[("h", sid)].maxblock, n)
+                self.dec[("h", sid)].block(src[:consumed], out, addr)
+            else:
+                self.failed_state.add(("h", sid))
+                if not s["dirty"] and not (destsize and cap < 1):
+                    self.fail("prop_fail", "LZ4_compress_HC_continue returned %d but did not set the dirty flag" % r)
+                if cap >= bound(n) and not destsize:
+                    self.fail("prop_fail", "LZ4_compress_HC_continue failed with capacity %d >= LZ4_compressBound(%d)" % (cap, n))
+        finally:
+            if ready:
+                if destsize: self.ask("hcds", sid, addr, n, cap)
+                else: self.ask("hcont", sid, addr, n, cap)
+                if not self.res["fails"]:
+                    self.hcmp(sid, "LZ4_compress_HC_continue" + ("_destSize" if destsize else ""), r, out, consumed=consumed if destsize else None)
+            elif self.orc:
+                self.hmodel[sid] = False
+        if destsize:
+            return r, out, consumed
         return r, out
     def h_save(self, sid, addr, n):
         s0 = self.hstate(sid)
         pre = s0["end"] - s0["prefixStart"] if s0["prefixStart"] else 0
+        ready = self.h_model_ready(sid, False)
         r = self.lib.saveDictHC(self.hc[sid].p, self.arena.ptr(addr) or None, n)
         self.log.append("save h%d %d+%d -> %d" % (sid, addr - BASE, n, r))
         self.res["stats"]["saveDictHC"] += 1
@@ -730,13 +878,24 @@ class Sess:
         d = self.dec[("h", sid)]
         if r > 0 and len(d.H) >= r and d.H[-r:] != self.arena.read(addr, r):
             self.fail("prop_fail", "LZ4_saveDictHC did not save the last %d bytes of the stream" % r)
-        d.mirror_save(addr, r)
+        if ready:
+            self.ask("hsave", sid, addr, n)
+            self.hcmp(sid, "LZ4_saveDictHC", r, None, extra={"mem": md5(self.arena.read(addr, r))})
+        elif self.orc and r > 0:
+            # keep the model's memory in step even when the context is not compared
+            a = self.orc.ask("w", str(addr), hx(self.arena.read(addr, r)))
+        if self.hstate(sid)["dctx"]:
+            d.drop_mirror()        # whole prefix saved, dictionary context still attached: LZ4_setStreamDecode cannot express "dictionary ++ saved bytes"
+        else:
+            d.mirror_save(addr, r)
         return r
     def h_oneshot(self, sid, kind, addr, n, cap, level):
         """kind: fr (LZ4_compress_HC_extStateHC_fastReset) | ext (LZ4_compress_HC_extStateHC)"""
         dst = Buf(max(cap, 0), fill=0xC3)
         src = self.arena.read(addr, n)
         f = self.lib.compress_HC_extStateHC_fastReset if kind == "fr" else self.lib.compress_HC_extStateHC
+        mid = 1 <= level <= 2
+        ready = (self.orc is not None and mid) if kind == "ext" else self.h_model_ready(sid, mid)
         r = f(self.hc[sid].p, self.arena.ptr(addr), dst.p, n, cap, level)
         out = dst.bytes(r) if 0 < r <= cap else b""
         dst.free()
@@ -750,13 +909,22 @@ class Sess:
         if r < 0 or r > max(cap, 0):
             self.fail("prop_fail", "HC one-shot (%s) returned %d with capacity %d" % (kind, r, cap))
         s = self.hstate(sid)
-        if r > 0:
-            self.independent(src, out, "HC one-shot %s level %d" % (kind, level))
-        else:
-            if not s["dirty"]:
-                self.fail("prop_fail", "HC one-shot returned %d but did not set the dirty flag" % r)
-            if cap >= bound(n):
-                self.fail("prop_fail", "HC one-shot failed with capacity %d >= bound" % cap)
+        try:
+            if r > 0:
+                self.independent(src, out, "HC one-shot %s level %d" % (kind, level))
+            else:
+                if not s["dirty"]:
+                    self.fail("prop_fail", "HC one-shot returned %d but did not set the dirty flag" % r)
+                if cap >= bound(n):
+                    self.fail("prop_fail", "HC one-shot failed with capacity %d >= bound" % cap)
+        finally:
+            if ready:
+                self.ask("hfr" if kind == "fr" else "hext", sid, addr, n, cap, level)
+                self.hmodel[sid] = True
+                if not self.res["fails"]:
+                    self.hcmp(sid, "LZ4_compress_HC_extStateHC" + ("_fastReset" if kind == "fr" else ""), r, out)
+            elif self.orc:
+                self.hmodel[sid] = False
         return r, out
     def h_shift(self, sid, delta):
         """state injection for HC: shift every index (hash table entries, dictLimit, lowLimit, nextToUpdate)"""
@@ -769,11 +937,12 @@ class Sess:
                                          (s["nextToUpdate"] + delta) & 0xFFFFFFFF))
         self.log.append("shift h%d +%d (dictLimit %d)" % (sid, delta, s["dictLimit"]))
         self.res["stats"]["state_injection_hc"] += 1
+        self.hmodel[sid] = False          # the model is re-synchronised (himport) before the next mirrored call
 
 def size_class(n):
     return "0" if n == 0 else "1-12" if n <= 12 else "<4K" if n < 4096 else "4K" if n <= 4097 else "<64K" if n < 65536 else ">=64K"
 def lvl_class(l):
-    return "mid" if l == 2 else "hc" if 3 <= l <= 9 else "opt" if l >= 10 else "dflt"
+    return "mid" if 1 <= l <= 2 else "hc" if 3 <= l <= 9 else "opt" if l >= 10 else "dflt"
 
 # ------------------------------------------------------------------ placement rule
 def legal_source(regions, s, n):
@@ -934,8 +1103,19 @@ def scen_stream(S, rng, fam, kind, M, nblocks, p):
         da = S.arena.alloc(dn)
         S.write(da, make_block(rng, dn, b"", base))
         if fam == "f": S.f_load(sid, da, dn, slow=rng.random() < 0.4)
+        elif rng.random() < p.get("pattach", 0.4):
+            # the dictionary as an attached dictionary stream (searched in place / copied / detached at 64 KB); with the
+            # save geometries this gives "LZ4_saveDictHC while a dictionary context is attached" (F18)
+            S.h_new(1, rng.choice(levels)); S.h_load(1, da, dn); S.h_attach(sid, 1)
+            st["stream_dict_attached"] += 1
         else: S.h_load(sid, da, dn)
     acc = rng.choice(ACCELS)
+    def early_save():
+        # LZ4_saveDict / LZ4_saveDictHC at ANY point: before the first block, right after a reset (F17)
+        if rng.random() < p.get("psave_early", 0.15):
+            (S.f_save if fam == "f" else S.h_save)(sid, S.scratch_safe(), rng.choice([K64, K64, 1000, 4, 0]))
+            st["save_before_first_block"] += 1
+    early_save()
     inject_at = rng.randrange(1, max(2, nblocks)) if rng.random() < p.get("pinject", 0.0) else -1
     i = 0
     while i < nblocks:
@@ -963,6 +1143,11 @@ def scen_stream(S, rng, fam, kind, M, nblocks, p):
                 r, out = S.f_continue(sid, a, n, 0, 1, force_ext=True)
             else:
                 r, out = S.f_continue(sid, a, n, cap, acc, expect_ok=cap >= bound(n))
+        elif rng.random() < p.get("pdestsize", 0.08) and n > 0:
+            tgt = rng.choice([max(1, n // 2), max(1, n // 3 + 8), 20, 13, 1, bound(n), max(1, rng.randrange(1, bound(n) + 1))])
+            r, out, consumed = S.h_continue(sid, a, n, tgt, destsize=True)
+            if r <= 0 and tgt >= 1 and not S.hstate(sid)["dirty"]:
+                S.fail("prop_fail", "LZ4_compress_HC_continue_destSize returned %d without setting dirty" % r)
         else:
             r, out = S.h_continue(sid, a, n, cap)
         if r <= 0:
@@ -970,6 +1155,7 @@ def scen_stream(S, rng, fam, kind, M, nblocks, p):
             st["failed_then_reset"] += 1
             if fam == "f": S.f_reset_fast(sid)
             else: S.h_reset_fast(sid, rng.choice(levels))
+            early_save()
             continue
         geo.after(sid, n)
 
@@ -1054,6 +1240,7 @@ def scen_dict(S, rng, fam, p):
         S.h_new(WS, rng.choice(levels))
     dec = S.dec[(fam, WS)]
     nuses = rng.choice([1, 2, 3, 6])
+    sv = None
     for use in range(nuses):
         st["dict_uses"] += 1
         # prepare the working stream for a new session that starts from the dictionary
@@ -1092,7 +1279,15 @@ def scen_dict(S, rng, fam, p):
             pos = a + n
             for j in range(rng.choice([0, 0, 1, 2, 3])):
                 n2 = min(room - 16, rng.choice([0, 7, 60, 500, 4097, 9000]))
-                if rng.random() < 0.6 and pos + n2 <= a + room:
+                if rng.random() < p.get("psave", 0.3) and (sv is not None or S.arena.size - S.arena.top >= K64 + 9016 + 80):
+                    # LZ4_saveDict / LZ4_saveDictHC (often fewer bytes than the stream holds) while the dictionary may still be
+                    # attached, and the next block right after the saved bytes (F18)
+                    if sv is None: sv = S.arena.alloc(K64 + 9016)
+                    k = rng.choice([K64, K64, 1000, 200, 17, 4, 0])
+                    rs = (S.f_save if fam == "f" else S.h_save)(WS, sv, k)
+                    st["dict_save_then_contiguous"] += 1
+                    a2 = sv + max(rs, 0)
+                elif rng.random() < 0.6 and pos + n2 <= a + room:
                     a2 = pos
                 else:
                     a2 = sep + room + 32
@@ -1627,3 +1822,58 @@ def scen_attach_abandoned(S, rng, fam, p):
             st["abandoned_session_blocks_h"] += 1
             S.h_continue(WS, area + pos, n, bound(n))
             pos += n + rng.choice([0, 0, 64])
+
+
+def corpus_savedict_fresh(S, rng):
+    """F17 (fixed in /repo): LZ4_saveDictHC on a stream that has not started (fresh, or fully re-initialised), then a block.
+    Before the fix the context was anchored at index 0 and the block came out with an offset-0 match (silent corruption,
+    every HC level).  Judged by the round-trip oracles, so levels >= 3 are guarded too; levels 1-2 also by the model."""
+    src = (b"abcdefghijklmnopqrstuvwxyz0123456789" * 30)[:1000]
+    a = S.arena.alloc(len(src)); S.write(a, src)
+    safe = S.arena.alloc(K64)
+    for i, lvl in enumerate((1, 2, 3, 9, 12)):
+        S.h_new(i, lvl)
+        r = S.h_save(i, safe, K64)
+        if r != 0:
+            S.fail("prop_fail", "LZ4_saveDictHC on a fresh stream returned %d" % r)
+        S.h_continue(i, a, len(src), 2000)
+        # same after LZ4_resetStreamHC_fast and after a failed call (dirty => full re-initialisation)
+        S.h_reset_fast(i, lvl)
+        S.h_save(i, safe, 4096)
+        S.h_continue(i, a, 500, 4)             # fails: dirty
+        S.h_reset_fast(i, lvl)
+        S.h_save(i, safe, K64)
+        S.h_continue(i, a, len(src), bound(len(src)))
+    S.res["stats"]["corpus_F17"] += 1
+
+
+def corpus_savedict_attached(S, rng):
+    """F18 (fixed in /repo): LZ4_saveDictHC of FEWER bytes than the prefix holds while a dictionary context is attached, then
+    a block right after the saved bytes.  Before the fix the dictionary stayed attached and was virtually re-placed just
+    below the saved bytes: offsets into it were short by (prefix size - saved size), silent corruption at every level pair.
+    Judged by the round-trip oracles with the decoder-side history D ++ b1 (all level pairs); pairs of levels 1-2 also by
+    the model.  Second half: the whole prefix saved - the dictionary stays attached and is still used."""
+    r0 = random.Random(18)
+    D = bytes(r0.randrange(256) for _ in range(3000))
+    b1 = bytes(r0.randrange(256) for _ in range(1000))
+    b2 = D[500:1500]
+    da = S.arena.alloc(len(D)); S.write(da, D)
+    a1 = S.arena.alloc(len(b1)); S.write(a1, b1)
+    safe = S.arena.alloc(2 * len(b1) + 64)
+    lv = (1, 2, 3, 9, 12)
+    for i, dl in enumerate(lv):
+        S.h_new(10 + i, dl); S.h_load(10 + i, da, len(D))
+    for j, wl in enumerate(lv):
+        S.h_new(j, wl)
+    for i, dl in enumerate(lv):
+        for j, wl in enumerate(lv):
+            for keep in (200, K64):
+                S.h_reset_fast(j, wl)
+                S.h_attach(j, 10 + i)
+                S.h_continue(j, a1, len(b1), 2000)
+                rs = S.h_save(j, safe, keep)
+                S.write(safe + rs, b2)
+                r, out = S.h_continue(j, safe + rs, len(b2), 2000)
+                if keep == K64 and r > 200 and wl <= 2 and dl <= 2:
+                    S.fail("prop_fail", "dictionary not used after LZ4_saveDictHC of the whole prefix (levels %d/%d): %d bytes" % (dl, wl, r))
+    S.res["stats"]["corpus_F18"] += 1
